@@ -94,8 +94,9 @@ def tiles(cells, lo=Fraction(0), hi=Fraction(1), tol=Fraction(0)):
 
 def law_from_cells(ctx, cells, impl, key=lambda s: s):
     """Riemann-exact law of the implementation: every cell predicted by M is probed at its inside points; the cell's
-    length is credited to the state the *implementation* returns at the midpoint.  Returns (law dict, mismatches,
-    excluded length)."""
+    length is credited to the state the *implementation* returns at the midpoint.  Parts of [0,1) not covered by M's
+    cells (only when the tie is broken) are probed at their midpoint too, so that the measured law stays a law.
+    Returns (law dict, mismatches, excluded length)."""
     law, bad, excluded = {}, [], Fraction(0)
     for s, lo, hi in cells:
         if hi <= lo:
@@ -110,6 +111,14 @@ def law_from_cells(ctx, cells, impl, key=lambda s: s):
         for u, g in zip(pts, got):
             if g != key(s):
                 bad.append({"u": u, "impl": str(g), "model_cell": [str(key(s)), str(lo), str(hi)]})
+    cur = Fraction(0)
+    for lo, hi in sorted((lo, hi) for _, lo, hi in cells if hi > lo) + [(Fraction(1), Fraction(1))]:
+        if lo - cur > TOL:
+            pts = probe_points(cur, lo)
+            if pts:
+                g = impl(pts[0])
+                law[g] = law.get(g, Fraction(0)) + (lo - cur)
+        cur = max(cur, hi)
     return law, bad, excluded
 
 
@@ -391,7 +400,9 @@ def one_d_chain_case(ctx, fam, params, kind, h, kw, mname, desc, hist=True):
     ax = [float(x) for x in g.axes[0]]
     o = int(g.origin_coordinate.value)
     n = len(ax)
-    if not (all(a < b for a, b in zip(ax, ax[1:])) and 1 <= o <= n - 2 and ax[o] == 0.0) or n > ctx.n(400, 2500):
+    wellformed = (all(a < b for a, b in zip(ax, ax[1:])) and 1 <= o <= n - 2 and ax[o] == 0.0
+                  and abs(ax[o - 1] + float(g.h)) <= 1e-12 and abs(ax[o + 1] - float(g.h)) <= 1e-12)
+    if not wellformed or n > ctx.n(400, 2500):
         ctx.branches["c02.grid_skipped"] += 1          # malformed grids are C13's known findings
         return
     d = dict(desc, **gd, method=mname)
@@ -439,7 +450,7 @@ def one_d_chain_case(ctx, fam, params, kind, h, kw, mname, desc, hist=True):
             return table_factory_case(ctx, d, cls, s, target, o, n)
         # ---------------- S: law of the implementation as a function of u vs q/lambda; never origin / out of grid / p = 0
         total = sum((b - a for _, a, b in cells if b > a), Fraction(0))
-        if not tiles(cells, hi=total, tol=Fraction(1, 2 ** 44)) or abs(total - 1) > TOL:
+        if not tiles(cells, hi=total, tol=TOL) or abs(total - 1) > TOL:
             ctx.fail("corr", "c02.factory.cells", d, {"name": f"{mname}: cells of M from the extracted tables do not tile [0,1)", "total": float(total)}, cls=cls)
         law, bad, excl = law_from_cells(ctx, cells, single)
         if mname == "INVERSION" and calls:
@@ -451,11 +462,36 @@ def one_d_chain_case(ctx, fam, params, kind, h, kw, mname, desc, hist=True):
     if bad:
         ctx.fail("corr", "c02.factory.draw", d, {"name": f"{mname}: implementation at inside points of M's cells", "mismatches": bad[:5]}, cls=cls)
     judge_law(ctx, d, cls, law, excl, target, o, n)
+    if mname == "INVERSION":      # on a fresh instance each boundary is first reached by the extension loop, then by the memo
+        fresh = mk().sampling
+        boundary_points(ctx, d, cls, s, lambda u: canon(fresh.sample_with_u(u)) + o, mname, lambda r: isinstance(r, int) and 0 <= r < n and r != o)
+    else:
+        boundary_points(ctx, d, cls, s, single, mname, lambda r: isinstance(r, int) and 0 <= r < n and r != o)
     us = [u for _, lo, hi in cells for u in probe_points(lo, hi)]
     ctx.rng.shuffle(us)
     batch_case(ctx, d, cls, s, lambda u: single(u) - o, us[:40])
     if hist and mname in ("INVERSION", "BINARYSEARCHTREEADAPTED1D"):
         history_case(ctx, d, cls, mk, cells, o, env=(adm, prob, incs, mf) if mname == "INVERSION" else None)
+
+
+def boundary_points(ctx, d, cls, s, single, mname, admissible):
+    """don't-care points (u exactly on a cell boundary): only "no exception, a state of the grid other than the origin";
+    each point is asked twice (the second call of the inversion sampler takes the memoised branch)"""
+    if mname == "INVERSION":
+        pts = [float(c) for c in list(s._cumulative_probabilities)[:-1]][:40]
+    elif mname == "BINARYSEARCHTREE":
+        pts = [float(c) for c in s.bst if 0.0 < c < 1.0][:40]
+    else:
+        return
+    try:
+        for u in pts:
+            for _ in range(2):
+                r = single(u)
+                if not admissible(r):
+                    ctx.fail("oracle", "c02.factory.law", d, {"what": "inadmissible state for a uniform on a cell boundary", "u": u, "returned": str(r)}, cls=cls)
+                    return
+    except Exception as e:  # noqa
+        ctx.fail("oracle", "c02.factory.raises", d, {"what": "exception for a uniform exactly on a cell boundary", "raised": repr(e)}, cls=cls)
 
 
 def judge_law(ctx, d, cls, law, excl, target, o, n, key=lambda k: k):
@@ -637,6 +673,10 @@ def copula_case(ctx, margins_desc, cop, gkind, gkw, mname):
     mk = lambda: MarkovChainLevyCopula(mk_model(), mk_grid(), method)
     try:
         g = mk_grid()
+    except Exception as e:  # noqa: grid constructor rejected these arguments (C13's subject)
+        ctx.branches[f"c02.grid_raises:{gkind}2d:{type(e).__name__}"] += 1
+        return
+    try:
         oc = tuple(int(c) for c in g.origin_coordinate)
         sizes = [len(a) for a in g.axes]
         ref = MarkovChainLevyCopula(mk_model(), mk_grid(), SamplingMethod.INVERSION).sampling
